@@ -37,6 +37,17 @@ CLAIMED.update({
    note="TSan sees instrumented code only (not ICU, not libc). The simulated XMLMutexMgr enforces mutual exclusion through the scheduler (std::recursive_mutex of StdMutexMgr is never locked). The tsan variant of xerces-c is built with -fno-inline so that reports can be classified by the binary's own symbol table."),
 })
 
+CLAIMED.update({
+ "C19": dict(engine="worldsim", cat="exploration", ref="5.C19",
+   technique="deterministic simulation with fault injection: the parser inside a simulated file system + network + plan-driven entity resolver (answers / null / throws, resources missing); every open, request and resolver offer is logged and checked against a permit model; seeded entity DAGs and cycles against the SecurityManager bound",
+   text="Each run generates a world - a document in /sim/a or http://sim.test/a referencing an external subset, external general and parameter entities declared in the internal and in the external subset (nested, unreferenced ones too) or schema location hints with include/import, spelled relative, absolute, as file: or http: URL, with decoy files at the locations a wrong base URI would produce - and a random configuration (scanner, validation scheme, loadExternalDTD, loadSchema, doSchema, disableDefaultEntityResolution, resolver kind and which identifiers it answers). Safety: every file open / net request seen by the simulated world must be in the set the configuration permits (empty with default resolution disabled, with the DTD-ignoring scanners, with external-DTD loading and validation off, with schema loading off; never an unreferenced entity, never a decoy). Protocol: every default open was first offered to the installed resolver, a source supplied by the resolver replaces the default, offers resolve (RFC 2396, against the base of the declaring entity) to the designated location. A quarter of the runs generate entity DAGs, cycles and parameter-entity chains and check the expansion limit (fatal error iff the document needs more expansions than the limit, at most `limit` expansions started, unaffected otherwise, cycles always reported, step budget).",
+   note="The permit model encodes the statement's rules; an access that bypassed XMLPlatformUtils::fgFileMgr / fgNetAccessor would not be seen (the real PosixFileMgr and CurlNetAccessor are replaced). The SAX1 EntityResolver carries no base URI: its offers are identified by their literal."),
+ "C20": dict(engine="worldsim", cat="exploration", ref="5.C20",
+   technique="deterministic simulation with fault injection: generated inclusion graphs over a simulated file system with missing / unopenable / torn targets and seeded short-read schedules; result compared with a reference XInclude expander that runs on the generator's tree model with the same fault decisions",
+   text="Each run generates 3-7 files in nested directories (relative hrefs incl. '../', repeated and nested includes, parse=xml and parse=text in UTF-8 / UTF-16 / ISO-8859-1, cycles and self-inclusion, fallbacks containing further includes, invalid usages) and fault decisions (target missing, cannot be opened, torn; every file read through a seeded short-read schedule). XercesDOMParser or DOMLSParser processes the main document with XInclude on. Where the reference expander says all inclusions are satisfiable the merged tree (xml:base and redundant xmlns=\"\" attributes set aside) must equal the parse of the expander's output and no fatal error may be reported; where the specification demands an error (loop, self-inclusion, unknown parse value, xpointer, two fallbacks, orphan fallback, missing href, unavailable target without fallback) one must be reported; processing must end within the step budget and leave no file handle open.",
+   note="xml:base values are not compared literally: base fix-up is judged by nested relative hrefs inside included content reaching the files the model says they designate. Document-level (root element) includes are not generated."),
+})
+
 NOT_APPLICABLE = {
  "C03": "pure function of (document text, settings) to an event stream; no schedule, fault or history in it - deciding it needs an independent infoset oracle over generated inputs (property-based testing), not simulation; its only environment-dependent part (refill boundaries) is decided under C04",
  "C05": "finite pure function over code points and byte sequences, decided by enumeration, not by sampling schedules or faults; 'every buffer split position' is exercised by C04's targeted chunking",
